@@ -98,6 +98,9 @@ def gen_plan(rng, index, tier):
             cms = plan["centered"]["max_stride"]
             crop = int(math.ceil(rng.choice([32, 48, 64]) / cms) * cms)
             crop2 = int(math.ceil(rng.choice([32, 48, 64]) / cms) * cms) if rng.random() < 0.3 else crop  # crop_hw is (height, width): not always square
+            if rng.random() < 0.25:
+                # a user-set crop size need not be a multiple of the centered-instance max stride (the crop is then stride-padded)
+                crop, crop2 = rng.choice([36, 40, 52, 72]), rng.choice([36, 40, 52, 72])
             plan["crop_hw"] = [crop, crop2]
             plan["max_instances"] = None
         if blob:
@@ -278,7 +281,8 @@ def execute(plan, choices=None):
     probes = {"keypoints_compared": 0, "invisible_checked": 0, "scaled_runs": 0, "size_matched_runs": 0, "padded_runs": 0,
               "worst_err_over_tol_x1000_max": 0, "provider_pairs_compared": 0, "integral_refinement": 0, "instances_compared": 0, "degenerate_tie_scene_skipped": 0, "mixed_frame_sizes": 0, "frame_without_visible_animal": 0,
               "grayscale_blob_frames": int(plan.get("frame_kind") == "blob"),
-              "non_square_crop": int(plan.get("crop_hw") is not None and plan["crop_hw"][0] != plan["crop_hw"][1])}
+              "non_square_crop": int(plan.get("crop_hw") is not None and plan["crop_hw"][0] != plan["crop_hw"][1]),
+              "crop_not_multiple_of_stride": int(plan.get("crop_hw") is not None and any(c % plan["centered"]["max_stride"] for c in plan["crop_hw"]))}
 
     def V(kind, where, detail):
         violations.append({"kind": kind, "sig": f"{kind}:{where}", "detail": detail})
